@@ -155,6 +155,29 @@ def run(tier, out):
                             pass
                     events.append({"tid": tid, "seq": 1, "ev": "Sibling", "seed": seed,
                                    "variant": f"unit-of-a-live-edit({key}: {mv[1]} vs {unit2})", "differs": d})
+                    # (c) the unit alone is corrected on a live system (same number, other unit): the result must be the
+                    #     one of a system built with that value
+                    ratio = efx._base_factor(ns, ns.u(unit2).units) / efx._base_factor(ns, ns.u(mv[1]).units)
+                    too_long = a in ("user_time_spent", "request_duration") and \
+                        mv[0] * efx._base_factor(ns, ns.u(unit2).units) > 2 * 86400        # durations of days: hours of computing
+                    if mv[0] != 0 and 1e-3 <= ratio <= 1e3 and not too_long:
+                        same_number = [mv[0], unit2]
+                        m3 = copy.deepcopy(model)
+                        m3[n]["inp"][a] = same_number
+                        try:
+                            fresh = efx.build(ns, m3)
+                        except Exception:   # noqa: the corrected value is not acceptable for this system
+                            fresh = None
+                        if fresh is not None:
+                            l3 = efx.build(ns, model)
+                            try:
+                                efx.apply_edit_live(ns, model, l3, ("input", n, a, same_number))
+                                d = [list(x) for x in efx.diff(efx.snapshot(ns, fresh, names), efx.snapshot(ns, l3, names), names)]
+                            except Exception as ex:   # noqa
+                                d = [[f"the live edit raised {type(ex).__name__}", str(ex)[:80]]]
+                            events.append({"tid": tid, "seq": 2, "ev": "Sibling", "seed": seed,
+                                           "variant": f"unit-corrected-on-a-live-system({key}: {mv[0]} {mv[1]} -> {mv[0]} {unit2})",
+                                           "differs": d})
         trace = wd + "/c10.ndjson"
         tracecheck.write_trace(trace, events, keys=("tid", "seq", "ev", "variant", "differs"))
         fails, _n, res2 = tracecheck.validate(wd, "Trace_Edit", trace, {"JFN": "TRUE"}, timeout=3000)
